@@ -82,6 +82,24 @@ def frag(kind):
                                     "prediction": {"k": "set", "t0": 1, "occ": [{"t": 1, "shape": ["rect", 3.0, 2.0, 7.0, 1.0, 0.3]}, {"t": 2, "shape": ["circle", 2.0, 8.0, 1.5]},
                                                                                 {"t": 3, "shape": ["poly", [[8.0, 0.0], [11.0, 0.5], [10.0, 3.0]]]},
                                                                                 {"t": 4, "shape": ["group", [["rect", 1.0, 1.0, 9.0, 1.0, 0.0], ["circle", 0.5, 12.0, 1.0]]]}]}})
+        elif kind == "at-origin":
+            # obstacles standing exactly on the origin: a fixed point of every pure rotation, so their position is bit-identical before and after
+            # it while orientation and occupied region are not (seed C05_r10_1)
+            sp["obstacles"].append({"role": "static", "id": 60, "type": "PARKED_VEHICLE", "shape": ["rect", 4.0, 2.0, 0.0, 0.0, 0.0], "initial_state": spec.init_state(x=0.0, y=0.0, o=0.4)})
+            sp["obstacles"].append({"role": "dynamic", "id": 61, "type": "CAR", "shape": ["rect", 3.0, 1.0, 0.0, 0.0, 0.0], "initial_state": spec.init_state(x=0.0, y=0.0, o=-0.7)})
+            sp["obstacles"].append({"role": "dynamic", "id": 62, "type": "CAR", "shape": ["rect", 4.5, 2.0, 0.0, 0.0, 0.0], "initial_state": spec.init_state(x=0.0, y=0.0, o=0.1),
+                                    "prediction": {"k": "trajectory", "t0": 1, "shape": ["rect", 4.5, 2.0, 0.0, 0.0, 0.0],
+                                                   "states": [ks(1, 0.0, 0.0, 0.3), ks(2, 1.0, 0.0, 0.2)]}})
+        elif kind == "set-same-step":
+            # set-based predictions holding several occupancies for one time step (alternative regions), for a dynamic and a phantom obstacle:
+            # every stored occupancy is moved, not only the one occupancy_at_time_step returns (seed C05_r10_2)
+            sp["obstacles"].append({"role": "dynamic", "id": 63, "type": "BICYCLE", "shape": ["circle", 0.5, 0.0, 0.0], "initial_state": spec.init_state(x=6.0, y=1.0, o=2.0),
+                                    "prediction": {"k": "set", "t0": 1, "occ": [{"t": 1, "shape": ["rect", 3.0, 2.0, 7.0, 1.0, 0.3]}, {"t": 1, "shape": ["circle", 2.0, 8.0, 3.5]},
+                                                                                {"t": 2, "shape": ["poly", [[8.0, 0.0], [11.0, 0.5], [10.0, 3.0]]]},
+                                                                                {"t": 2, "shape": ["rect", 1.0, 1.0, 9.0, 4.0, 0.0]}]}})
+            sp["obstacles"].append({"role": "phantom", "id": 64, "prediction": {"k": "set", "t0": 0, "occ": [{"t": 0, "shape": ["rect", 3.0, 2.0, 12.0, 1.0, -0.2]},
+                                                                                                           {"t": 1, "shape": ["circle", 1.0, 13.0, 1.5]},
+                                                                                                           {"t": 1, "shape": ["rect", 2.0, 1.0, 14.0, 3.5, 0.6]}]}})
         elif kind == "phantom":
             sp["obstacles"].append({"role": "phantom", "id": 33, "prediction": {"k": "set", "t0": 0, "occ": [{"t": 0, "shape": ["rect", 3.0, 2.0, 12.0, 1.0, -0.2]},
                                                                                                            {"t": 1, "shape": ["circle", 1.0, 13.0, 1.5]}]}})
@@ -136,7 +154,7 @@ def post_build(kinds, sc):
         sc.add_objects(Lanelet(hi, (hi + mid) / 2, mid, 6, adjacent_right=5, adjacent_right_same_direction=True))
 
 
-KINDS = ["base", "shared-boundary-array", "lanelet+stopline", "stopline-without-points", "dynamic-with-history", "sign", "light", "static-rect", "static-shapes", "dynamic-trajectory", "dynamic-set", "phantom", "environment",
+KINDS = ["base", "shared-boundary-array", "lanelet+stopline", "stopline-without-points", "dynamic-with-history", "sign", "light", "static-rect", "static-shapes", "dynamic-trajectory", "dynamic-set", "set-same-step", "at-origin", "phantom", "environment",
          "uncertain", "planning"]
 
 
